@@ -5,11 +5,13 @@ EXTENDS MediaCache, Json, FiniteSets
 VARIABLE h
 CONSTANT Depth
 
-MCCTypes == {"json", "json_charset", "vnd_json", "custom", "form", "form_charset", "text", "none"}
-MCHandlerOf == [c \in MCCTypes |-> CASE c \in {"json", "json_charset", "vnd_json", "custom", "none"} -> "json"
+(* "json_params": application/json with a charset / other parameter the harness rotates through;
+   "subjson": a JSONHandler subclass (no ASGI fast path), with and without such parameters *)
+MCCTypes == {"json", "json_charset", "json_params", "subjson", "vnd_json", "custom", "form", "form_charset", "text", "none"}
+MCHandlerOf == [c \in MCCTypes |-> CASE c \in {"json", "json_charset", "json_params", "subjson", "vnd_json", "custom", "none"} -> "json"
                                      [] c \in {"form", "form_charset"} -> "form"
                                      [] OTHER -> "none"]
-MCBodyKinds == {"empty", "valid", "truncated", "badenc", "hookfail"}
+MCBodyKinds == {"empty", "valid", "truncated", "badenc", "hookfail", "blank", "padded"}
 (* PEP 3333 needs CONTENT_LENGTH to bound wsgi.input (wsgi.input_terminated is out of scope) *)
 MCFramings == [s \in {"wsgi", "asgi"} |-> IF s = "wsgi" THEN {"length"} ELSE {"length", "chunked"}]
 
